@@ -216,6 +216,12 @@ package cmap
 //@   requires a != nil
 //@   ensures [C13.kmutex.deleteunlock] forall j tp :: at(U, haskey(a.items, j)) == (j != key && at(L, haskey(a.items, j)))
 //@   at call Lock#0 label L
+//@   ensures [C13.kmutex.deleteunlock.released] at(L, haskey(a.items, key)) ==> (nunl == 1 && unlocked == at(L, a.items[key]))
+//@   ghost nunl int
+//@   ghost unlocked ref
+//@   at call Lock#0 ghost nunl = 0
+//@   at call Unlock#0 ghost nunl = nunl + 1
+//@   at before call Unlock#0 ghost unlocked = arg0
 //@   at before call Unlock#1 label U
 //@   at before call Unlock#0 assert heldw(a.lock) && haskey(a.items, key)
 
@@ -224,6 +230,12 @@ package cmap
 //@   requires a != nil
 //@   ensures [C13.kmutex.deleterunlock] forall j tp :: at(U, haskey(a.items, j)) == (j != key && at(L, haskey(a.items, j)))
 //@   at call Lock#0 label L
+//@   ensures [C13.kmutex.deleterunlock.released] at(L, haskey(a.items, key)) ==> (nunl == 1 && unlocked == at(L, a.items[key]))
+//@   ghost nunl int
+//@   ghost unlocked ref
+//@   at call Lock#0 ghost nunl = 0
+//@   at call RUnlock#0 ghost nunl = nunl + 1
+//@   at before call RUnlock#0 ghost unlocked = arg0
 //@   at before call Unlock#0 label U
 //@   at before call RUnlock#0 assert heldw(a.lock) && haskey(a.items, key)
 
